@@ -373,6 +373,8 @@ def c06(ctx, rep):
     # "every address ... in a line" — both passes run on every line, unconditionally once enabled
     from .checks_pipe import line_loop_rules
     line_loop_rules(ctx, rep, "C06")
+    from .checks_pipe import independent_wiring
+    independent_wiring(ctx, rep, "C06", only=("anonymizer4", "anonymizer6"))
 
 
 # ----------------------------------------------------------------------
@@ -410,6 +412,10 @@ def c11(ctx, rep):
     rep.rule = "one obligation per clause instance; the template is analysed with symbolic holes, boundaries as folded integers"
     rep.trust("hashlib.md5(b).hexdigest() is a pure function of b; int(hex, 16) >= 0", "re.sub with a callable replacement inserts the result verbatim", "Python % with a positive modulus yields 0..modulus-1")
     cls, found = as_regex_template(ctx, rep, "C11")
+    from .checks_misc import stage_state_rule
+    stage_state_rule(ctx, rep, "C11", ["AsNumberAnonymizer"])
+    from .checks_pipe import independent_wiring
+    independent_wiring(ctx, rep, "C11", only=("anonymizer_as_num",))
     loc_cls = "%s:%d" % (cls.module.relpath, cls.node.lineno)
     # 1. block table
     try:
